@@ -380,15 +380,29 @@ func (s *Sim) exec(st stepRef) {
 			s.res.Count("fault_corrupt_capture", 1)
 		}
 		s.or.beforeAPI(op)
+		wf := s.writeFault("api", 0, op.ID)
+		if wf != nil {
+			simrt.SetFsizeLimit(wf.Limit)
+		}
 		r := s.call(st.c, op)
 		s.settle()
+		if wf != nil {
+			simrt.SetFsizeLimit(0)
+			s.res.Count("fault_disk_full_during_api", 1)
+			s.or.afterWriteFaultAPI(op, r)
+		}
 		s.or.afterAPI(op, r)
 	case "body":
 		st.job.state = jRunning
 		s.or.beforeBody(st.job)
+		if wf := s.writeFault(simrt.KindNames[st.job.kind], st.job.seq, 0); wf != nil {
+			simrt.SetFsizeLimit(wf.Limit)
+			s.res.Count("fault_disk_full_during_"+simrt.KindNames[st.job.kind], 1)
+		}
 		simrt.Release(st.job.wfd, false)
 		j := st.job
 		s.waitFor(func() bool { return j.state == jPost }, "body of "+j.name())
+		simrt.SetFsizeLimit(0)
 		s.or.afterBody(st.job)
 	case "post":
 		j := st.job
@@ -406,6 +420,20 @@ func (s *Sim) exec(st stepRef) {
 		}
 	}
 	s.or.afterStep(st)
+}
+
+// writeFault: the disk-full fault planned for this step, if any.
+func (s *Sim) writeFault(kind string, seq, opID int) *WriteFault {
+	for i := range s.plan.WriteFail {
+		f := &s.plan.WriteFail[i]
+		if f.Kind != kind {
+			continue
+		}
+		if kind == "api" && f.OpID == opID || kind != "api" && f.Seq == seq {
+			return f
+		}
+	}
+	return nil
 }
 
 // choose picks the next step in search mode.
